@@ -44,7 +44,7 @@ func init() {
 		ID: "C13", Level: "exploration",
 		Rule: "case = one history of real endorse runs (endorse.VirtualFirmware: measure a 4 KiB image, sign, commit) against one store: in-memory VCS double with workspaces and atomic commit (mem-tx), the same double writing through (mem-wt), testing/nonprod/localnonvcs on a temp dir (local), or both at once via Context.VCSs (multi). " +
 			"Cases 0 and 1 are closures: breadth-first search over abstract store states (ordered (path,image) manifest entries + which image each *.binarypb signs) for the pool 3 images x 3 candidate names x overwrite{on,off} plus 3 snapshot-mode runs, every action run from every reached state until no new state appears (mem-tx and local; thorough adds 4 images x 3 names on mem-tx and 3 images x 4 names on mem-wt). " +
-			"The other cases are random histories of 8..40 runs over pools of 2..6 images and 2..6 candidate names (plain, default, with a sub-directory, with spaces/non-ASCII), 1..2 output directories, overwrite probability 0.25/0.5/0.8, 10% snapshot-mode runs, scripted retriable commit conflicts with 0..2 retries (mem-tx) and failed endorsement-file writes (mem-wt). " +
+			"The other cases are random histories of 8..40 runs over pools of 2..6 images and 2..6 candidate names (plain, default, with a sub-directory, with spaces/non-ASCII), 1..2 output directories, overwrite probability 0.25/0.5/0.8, 10% snapshot-mode runs, scripted retriable commit conflicts with 0..2 retries (mem-tx) and failed endorsement-file writes (mem-wt); run timestamps are not monotonic (newer than, older than, or equal to earlier runs'; every action of the mem-tx closures also has an older-timestamp variant); local-links histories turn not-yet-existing candidate paths into symlinks to an existing endorsement file, a missing target or a directory between runs and then endorse under those names without overwrite. " +
 			"Oracle after every run, over the files visible through the version-control abstraction: every manifest parses; no path and no digest twice; every entry's path (relative to the manifest) names a file that decodes as a VMLaunchEndorsement whose signed golden measurement carries the entry's digest; after a successful manifest-mode run the image's SHA-384 maps to <candidate>.binarypb and that file signs this digest with this run's timestamp; after a run without overwrite every *.binarypb that existed before is byte-identical. " +
 			"non-trivial = the run met a manifest: distinct (store kind, relation of the request to the manifest before the run {fresh, path-held, digest-held, same-entry, path-and-digest-in-different-entries}, target file existed, overwrite, outcome) cells, plus every distinct abstract state the closures reached",
 		Assumptions: []string{
@@ -52,6 +52,7 @@ func init() {
 			"the closure abstracts from create times, signature bytes and snapshot-mode files; it is exhaustive for its pool only if endorse's behaviour does not depend on those",
 			"snapshot-mode runs use image names that do not collide with manifest-mode file names; the never-replaced clause is applied to *.binarypb files only (snapshot mode rewrites <image>.signed by definition)",
 			"injected faults are limited to commit conflicts on the transactional double and to the endorsement-file write on the write-through double (nothing written); a failed manifest write on a non-transactional store is outside the property",
+			"a run WITH overwrite whose candidate path is a symlink is the same two-names-one-file case as ./a and is not generated; a dangling link's target name is outside the candidate pool",
 			"candidate names that are different spellings of one file (a, ./a, x/../a) are exercised for the record only and never judged",
 			"signing uses the repository's development keys (memkm/memca test-only instances); verdicts do not depend on key values",
 		},
@@ -165,6 +166,8 @@ type action struct {
 	retries   int
 	conflicts int  // scripted retriable commit failures (mem-tx)
 	failWrite bool // scripted endorsement-file write failure (mem-wt)
+	tsClass   string // how the run's timestamp relates to earlier runs: "", older, equal
+	link      string // local store: the candidate path is a symlink to: file, missing, dir
 }
 
 func (a action) String() string {
@@ -177,6 +180,12 @@ func (a action) String() string {
 	}
 	if a.failWrite {
 		s += " endorsement-write-fails"
+	}
+	if a.tsClass != "" {
+		s += " timestamp=" + a.tsClass
+	}
+	if a.link != "" {
+		s += " candidate-path-is-symlink-to-" + a.link
 	}
 	return s
 }
@@ -202,6 +211,8 @@ type env struct {
 	acceptedClass map[string]bool
 	refusals      int
 	keptFiles     int
+	oldMerges     int // accepted merges into an existing entry with a timestamp not newer than recorded ones
+	linkRefusals  int // runs without overwrite on a symlink to an existing endorsement
 	observeOnly   bool // alias histories: findings are counted, never reported as violations
 }
 
@@ -305,6 +316,8 @@ func (e *env) stepOn(i int, gname string, w *world, a action, ts time.Time, hist
 			outcome = "failed-injected"
 		case !a.snapshot && targetExists && !a.ow:
 			outcome = "refused-existing-without-overwrite"
+		case a.link == "dir" || a.link == "missing":
+			outcome = "failed-on-non-regular-target"
 		case len(w.stores) > 1:
 			outcome = "failed-in-other-store"
 		default:
@@ -322,6 +335,9 @@ func (e *env) stepOn(i int, gname string, w *world, a action, ts time.Time, hist
 		}
 		if outcome == "refused-existing-without-overwrite" {
 			e.refusals++
+			if a.link == "file" {
+				e.linkRefusals++
+			}
 		}
 		if !a.ow {
 			for kk := range pres[k] {
@@ -333,7 +349,16 @@ func (e *env) stepOn(i int, gname string, w *world, a action, ts time.Time, hist
 		if a.conflicts > 0 && err == nil {
 			c.Count("runs/ok-after-commit-retry", 1)
 		}
-		c.Cell("%s|%s|target-exists=%v|overwrite=%v|%s", s.Kind(), class, targetExists, a.ow, outcome)
+		kind := s.Kind()
+		if a.link != "" {
+			kind += "+symlink-to-" + a.link
+			c.Count("symlink-candidate-runs/"+a.link+"/"+outcome, 1)
+		}
+		if a.tsClass != "" && outcome == "ok" && class != "fresh" {
+			c.Count("merges-with-"+a.tsClass+"-timestamp/"+class, 1)
+			e.oldMerges++
+		}
+		c.Cell("%s|%s|target-exists=%v|overwrite=%v|ts=%s|%s", kind, class, targetExists, a.ow, a.tsClass, outcome)
 		c.Count("merge-class/"+class+"/"+outcome, 1)
 	}
 	return nf
@@ -348,16 +373,23 @@ func tail(s []string, n int) []string {
 
 // ---- closure ----
 
-func (e *env) closure(i int, kind string, nimg int, cands []string) {
+func (e *env) closure(i int, kind string, nimg int, cands []string, older bool) {
 	c := e.c
 	pool := fmt.Sprintf("%d images x %d candidates", nimg, len(cands))
-	gname := fmt.Sprintf("closure store=%s pool=%s %q x overwrite{on,off} + %d snapshot-mode runs", kind, pool, cands, nimg)
+	tsv := "timestamp{newer}"
+	if older {
+		tsv = "timestamp{newer,older}"
+	}
+	gname := fmt.Sprintf("closure store=%s pool=%s %q x overwrite{on,off} x %s + %d snapshot-mode runs", kind, pool, cands, tsv, nimg)
 	c.Begin(i, gname, entryPoint, nil)
 	var acts []action
 	for img := 0; img < nimg; img++ {
 		for _, n := range cands {
 			for _, ow := range []bool{false, true} {
 				acts = append(acts, action{img: img, name: n, ow: ow, outDir: "out"})
+				if older {
+					acts = append(acts, action{img: img, name: n, ow: ow, outDir: "out", tsClass: "older"})
+				}
 			}
 		}
 		acts = append(acts, action{img: img, name: "a", ow: img%2 == 0, outDir: "out", snapshot: true, snapDir: "snap", imageName: fmt.Sprintf("fw%d.fd", img)})
@@ -383,7 +415,11 @@ func (e *env) closure(i int, kind string, nimg int, cands []string) {
 		for _, a := range acts {
 			w.stores[0].Load(n.files)
 			ts++
-			if e.stepOn(i, gname, w, a, time.Unix(ts, 0), n.hist) > 0 {
+			when := time.Unix(ts, 0)
+			if a.tsClass == "older" { // older than every "newer" run, unique by its nanoseconds
+				when = time.Unix(1500000000, ts-1700000000)
+			}
+			if e.stepOn(i, gname, w, a, when, n.hist) > 0 {
 				bad++
 			}
 			transitions++
@@ -405,8 +441,8 @@ func (e *env) closure(i int, kind string, nimg int, cands []string) {
 	c.Count("closure/"+tag+"/transitions", transitions)
 	c.Max("closure/"+tag+"/depth", int64(depth))
 	if complete {
-		c.Note("closure over %s reached its fixpoint: %d abstract states, %d transitions (every one of %d actions from every state), depth %d: exhaustive for the pool %s x overwrite{on,off}",
-			kind, len(seen), transitions, len(acts), depth, pool)
+		c.Note("closure over %s reached its fixpoint: %d abstract states, %d transitions (every one of %d actions from every state), depth %d: exhaustive for the pool %s x overwrite{on,off} x %s",
+			kind, len(seen), transitions, len(acts), depth, pool, tsv)
 	}
 	c.Floor("closure-fixpoint-reached/"+tag, complete)
 	c.Sample(map[string]any{"case": i, "closure": kind, "pool": pool, "states": len(seen), "transitions": transitions, "depth": depth, "complete": complete})
@@ -437,14 +473,51 @@ func (e *env) history(i int, kind string) {
 	pOw := []float64{0.25, 0.5, 0.8}[r.IntN(3)]
 	gname := fmt.Sprintf("history store=%s images=%v candidates=%q out_dirs=%q runs=%d p(overwrite)=%.2f", kind, imgs, names, outs, length, pOw)
 	c.Begin(i, gname, entryPoint, nil)
+	links := kind == "local-links"
+	if links {
+		kind = "local"
+	}
 	w := newWorld(kind)
 	defer w.close()
 	var hist []string
+	var used []time.Time
+	linked := map[string]string{} // out_dir-relative candidate path -> kind of link target
+	var next *action
 	for s := 0; s < length; s++ {
 		a := action{img: imgs[r.IntN(len(imgs))], name: names[r.IntN(len(names))], ow: r.Float64() < pOw, outDir: outs[0]}
 		if len(outs) > 1 && r.IntN(5) == 0 {
 			a.outDir = outs[1]
 		}
+		if links {
+			if next != nil {
+				a.name, a.outDir = next.name, next.outDir
+				next = nil
+			} else if r.IntN(4) == 0 {
+				l := action{name: names[r.IntN(len(names))], outDir: a.outDir}
+				if k := makeLink(r, w.stores[0].(*localStore).t.Root, l, s); k != "" {
+					linked[path.Join(l.outDir, l.base())] = k
+					hist = append(hist, fmt.Sprintf("(harness: %s becomes a symlink to %s)", path.Join(l.outDir, l.base()), k))
+					c.Count("symlinks-created/"+k, 1)
+					if r.IntN(2) == 0 {
+						next = &l
+					} else {
+						a.name = l.name
+					}
+				}
+			}
+		}
+		// timestamps are not monotonic: mostly newer than all earlier runs, sometimes older than
+		// all of them (unique nanoseconds), sometimes exactly an earlier run's timestamp
+		when := time.Unix(1700000000+int64(s), 0)
+		switch t := r.IntN(20); {
+		case t < 5:
+			a.tsClass = "older"
+			when = time.Unix(1600000000+int64(r.IntN(1000)), int64(s+1))
+		case t < 8 && len(used) > 0:
+			a.tsClass = "equal"
+			when = used[r.IntN(len(used))]
+		}
+		used = append(used, when)
 		if r.IntN(10) == 0 {
 			a.snapshot = true
 			a.snapDir = "snap"
@@ -463,11 +536,19 @@ func (e *env) history(i int, kind string) {
 				a.failWrite = true
 			}
 		}
-		nf := e.stepOn(i, gname, w, a, time.Unix(1700000000+int64(s), 0), hist)
+		if k := linked[path.Join(a.outDir, a.base())]; k != "" && !a.snapshot {
+			// Overwriting through a symlink is the alias case (two names, one file): never judged,
+			// so never generated. Without overwrite nothing that exists may change.
+			a.link, a.ow = k, false
+		}
+		nf := e.stepOn(i, gname, w, a, when, hist)
 		hist = append(hist, a.String())
 		if nf > 0 {
 			break // one refuted history is enough; later runs would only repeat it
 		}
+	}
+	if links {
+		kind = "local-links"
 	}
 	c.Count("histories/"+kind, 1)
 	c.Max("history-length", int64(len(hist)))
@@ -475,6 +556,49 @@ func (e *env) history(i int, kind string) {
 		c.Sample(map[string]any{"case": i, "history": gname, "first_runs": hist[:min(4, len(hist))], "final_state": abstractKey(w.stores[0].Snapshot(), e.names)})
 	}
 	c.End(i)
+}
+
+// makeLink turns the (not yet existing) candidate path of l into a symlink: to an existing
+// endorsement file of the same output directory, to a missing target, or to a directory. It
+// returns the kind of target, or "" when nothing was created.
+func makeLink(r *rand.Rand, root string, l action, serial int) string {
+	dir := filepath.Join(root, filepath.FromSlash(l.outDir))
+	lp := filepath.Join(dir, filepath.FromSlash(l.base()))
+	if _, err := os.Lstat(lp); err == nil {
+		return ""
+	}
+	if err := os.MkdirAll(filepath.Dir(lp), 0o755); err != nil {
+		return ""
+	}
+	kind := []string{"file", "file", "file", "missing", "dir"}[r.IntN(5)]
+	var target string
+	switch kind {
+	case "file":
+		var cands []string
+		filepath.WalkDir(dir, func(p string, d fs.DirEntry, err error) error {
+			if err == nil && d.Type().IsRegular() && strings.HasSuffix(p, ".binarypb") {
+				cands = append(cands, p)
+			}
+			return nil
+		})
+		if len(cands) == 0 {
+			return ""
+		}
+		sort.Strings(cands)
+		target = cands[r.IntN(len(cands))]
+	case "missing":
+		target = filepath.Join(dir, fmt.Sprintf("gone-%d.binarypb", serial))
+	case "dir":
+		target = filepath.Join(dir, fmt.Sprintf("some-dir-%d", serial))
+		if err := os.MkdirAll(target, 0o755); err != nil {
+			return ""
+		}
+	}
+	rel, err := filepath.Rel(filepath.Dir(lp), target)
+	if err != nil || os.Symlink(rel, lp) != nil {
+		return ""
+	}
+	return kind
 }
 
 // aliasHistory exercises candidate names that spell the same file differently. Observation only.
@@ -592,7 +716,7 @@ func run(c *core.Ctx) {
 	selfOK := e.selfTest()
 	nh := c.N(400, 4000)
 	nalias := c.N(8, 40)
-	kinds := []string{"mem-tx", "local", "mem-wt", "multi"}
+	kinds := []string{"mem-tx", "local", "mem-wt", "multi", "local-links"}
 	const nclosure = 4
 	total := nclosure + nh + nalias
 	for i := 0; i < total; i++ {
@@ -601,16 +725,16 @@ func run(c *core.Ctx) {
 		}
 		switch {
 		case i == 0:
-			e.closure(i, "mem-tx", 3, []string{"", "a", "b"})
+			e.closure(i, "mem-tx", 3, []string{"", "a", "b"}, true)
 		case i == 1:
-			e.closure(i, "local", 3, []string{"", "a", "b"})
+			e.closure(i, "local", 3, []string{"", "a", "b"}, false)
 		case i == 2:
 			if c.Thorough() {
-				e.closure(i, "mem-tx", 4, []string{"", "a", "b"})
+				e.closure(i, "mem-tx", 4, []string{"", "a", "b"}, true)
 			}
 		case i == 3:
 			if c.Thorough() {
-				e.closure(i, "mem-wt", 3, []string{"", "a", "b", "rel/c"})
+				e.closure(i, "mem-wt", 3, []string{"", "a", "b", "rel/c"}, false)
 			}
 		case i < nclosure+nh:
 			e.history(i, kinds[i%len(kinds)])
@@ -637,5 +761,7 @@ func run(c *core.Ctx) {
 	c.Floor("oracle-selftest-flags-seeded-corruptions", selfOK)
 	c.Floor("every-merge-class-accepted-at-least-once", all)
 	c.Floor("refusal-without-overwrite-observed", e.refusals > 0)
+	c.Floor("merge-with-older-or-equal-timestamp-accepted", e.oldMerges > 0)
+	c.Floor("run-without-overwrite-on-symlink-to-existing-endorsement-observed", e.linkRefusals > 0)
 	c.Floor("existing-files-survived-runs-without-overwrite", e.keptFiles > 0)
 }
